@@ -57,7 +57,7 @@ func main() {
 	}
 	r := evidence.New("C12", "exploration")
 	r.Rule("phase pipe: case = (1-3 items, each a seeded directory tree (depth <= 5, empty dirs/files, long / non-ASCII / odd names, relative in-tree symlinks, assorted modes, sizes 0..2.5 MiB) or a single file, " +
-		"titles plain / nested / long / non-ASCII / unclean, option set over {TarReproducible, PreservePermissions, SkipUnpack, ForceCAS, IgnoreNoName}, intermediate in {none, memory, oci, remote}, umask in {022, 077, 027, 0}); " +
+		"titles plain / nested / long / non-ASCII / unclean, option set over {TarReproducible, PreservePermissions, SkipUnpack, ForceCAS, IgnoreNoName}, intermediate in {none, memory, oci, remote}, umask in {022, 077, 027, 0}, second working directory empty or (1 in 3) already holding an earlier version of the items: same paths or a subset, other bytes, other file modes, other link targets, file<->symlink swaps, directories staying directories; built directly or by an earlier pipeline of another file store); " +
 		"Add -> pack (root kind in {PackManifest v1.1, v1.0, deprecated Pack as artifact manifest, deprecated Pack as image manifest, hand-built Docker v2 manifest, OCI index over two such manifests with the layers split or shared}) -> Copy (-> Copy) into a second file store; restored trees compared with on-disk snapshots of the sources (paths, types, bytes, link targets, modes); " +
 		"phase repro: twin trees differing in timestamps, owners, creation order and hard links must give equal descriptors under TarReproducible; " +
 		"phase tamper: a directory blob with a wrong io.deis.oras.content.digest (or changed archive under the recorded digest) must be refused, the untampered one accepted and restored; " +
@@ -106,6 +106,9 @@ func main() {
 		{"items_dir_unpacked", int64(r.N(100, 2000))},
 		{"items_dir_skipunpack", int64(r.N(30, 600))},
 		{"files_crossing_1MiB", int64(r.N(10, 200))},
+		{"prepopulated_items", int64(r.N(40, 800))},
+		{"prepopulated_files_with_other_mode_replaced", int64(r.N(100, 2000))},
+		{"prepopulated_type_swaps", int64(r.N(20, 400))},
 	} {
 		if r.Counter(c.name) < c.floor {
 			low = append(low, fmt.Sprintf("%s=%d<%d", c.name, r.Counter(c.name), c.floor))
@@ -165,6 +168,9 @@ type item struct {
 	MediaType string `json:"media_type,omitempty"`
 	Tree      *tree  `json:"tree"`
 	AddPath   string `json:"add_path"`
+	Old       *tree  `json:"prepopulated_with,omitempty"` // earlier version found in the second working directory
+	PreHow    string `json:"prepopulated_how,omitempty"`  // "direct", "pipeline", "file"
+	oldSnap   map[string]node
 	srcPath   string
 	dupOf     int // index of the item whose source this item shares (-1: own)
 	desc      ocispec.Descriptor
@@ -445,6 +451,33 @@ func casePipe(res *worker.Result, rng *rand.Rand, root string, idx int, dupPhase
 		}
 		from = h.Target
 	}
+	// ---- the second working directory may already hold an earlier version
+	prepop := !dupPhase && rng.IntN(3) == 0
+	varyDirs := prepop && rng.IntN(4) == 0
+	if prepop {
+		sums := map[string]int{}
+		for _, it := range items {
+			if it.Tree.Single {
+				sums[it.src[""].Sum]++
+			}
+		}
+		for k, it := range items {
+			if rng.IntN(4) == 0 {
+				continue
+			}
+			if it.Tree.Single && sums[it.src[""].Sum] > 1 {
+				// equal bytes under two names (e.g. two empty files): with ForceCAS one name is
+				// legitimately not written, and an older file left there would be mistaken for it
+				continue
+			}
+			if err := prepopulate(rng, root, dstWD, k, it, o, umask, varyDirs); err != nil {
+				fail("harness:prepopulate", err.Error())
+				return
+			}
+			res.Count("prepopulated_items", 1)
+			res.Observe("prepopulated_how", it.PreHow)
+		}
+	}
 	fs2, err := file.New(dstWD)
 	if err != nil {
 		fail("harness:file.New", err.Error())
@@ -489,6 +522,12 @@ func casePipe(res *worker.Result, rng *rand.Rand, root string, idx int, dupPhase
 		}
 		shapes = append(shapes, it.Tree.shape())
 		dstPath := filepath.Join(dstWD, filepath.FromSlash(it.Name))
+		fail := fail
+		if it.PreHow != "" { // keys of pre-populated targets are kept apart
+			fail = func(key, what string) {
+				res.Violate(key+":prepopulated", what+" [the target held an earlier version, created "+it.PreHow+"]", wit())
+			}
+		}
 		_, lerr := os.Lstat(dstPath)
 		present := lerr == nil
 		if it.Tree.Single && len(groups[it.src[""].Sum]) > 1 {
@@ -557,9 +596,33 @@ func casePipe(res *worker.Result, rng *rand.Rand, root string, idx int, dupPhase
 					res.Count(strings.ReplaceAll(d.Key, ":", "_"), 1)
 					continue
 				}
-				fail(d.Key, fmt.Sprintf("directory %s: %s", q(it.Name), d.What))
+				what := d.What
+				if old, ok := it.oldSnap[d.Rel]; ok {
+					what += fmt.Sprintf("; before the copy: %s mode %04o", old.Type, unixMode(old.Mode))
+				}
+				fail(d.Key, fmt.Sprintf("directory %s: %s", q(it.Name), what))
 			}
 			res.Count("entries_compared", int64(len(it.src)))
+			if it.PreHow != "" {
+				for rel, old := range it.oldSnap {
+					nw, ok := it.src[rel]
+					if !ok {
+						continue
+					}
+					want := nw.Mode
+					if !o.PreservePermissions {
+						want &^= os.FileMode(umask)
+					}
+					switch {
+					case old.Type == "file" && nw.Type == "file" && old.Mode.Perm() != want.Perm():
+						res.Count("prepopulated_files_with_other_mode_replaced", 1)
+					case old.Type == "dir" && nw.Type == "dir" && old.Mode.Perm() != want.Perm():
+						res.Count("prepopulated_dirs_with_other_mode", 1)
+					case old.Type != nw.Type:
+						res.Count("prepopulated_type_swaps", 1)
+					}
+				}
+			}
 		}
 		// the second store serves the bytes of the descriptor it was given
 		if b, err := content.FetchAll(ctx, fs2, it.desc); err != nil {
@@ -619,7 +682,11 @@ func casePipe(res *worker.Result, rng *rand.Rand, root string, idx int, dupPhase
 	}
 
 	sort.Strings(shapes)
-	res.Key = fmt.Sprintf("%s|%s|%s|%03o|%s", strings.Join(shapes, "+"), o.String(), mid, umask, mkind)
+	pre := ""
+	for _, it := range items {
+		pre += it.PreHow + ","
+	}
+	res.Key = fmt.Sprintf("%s|%s|%s|%03o|%s|%s", strings.Join(shapes, "+"), o.String(), mid, umask, mkind, pre)
 	res.Observe("manifest_kinds", mkind)
 	res.Observe("manifest_kind_x_intermediate", mkind+"/"+mid)
 	res.NT = nontrivial
@@ -717,6 +784,145 @@ func checkDescriptor(fs *file.Store, it *item, res *worker.Result) []diff {
 		ds = append(ds, diff{"descriptor:uncompressed-digest", "", fmt.Sprintf("recorded uncompressed digest %s, gunzipped blob has sha256:%x", d.Annotations[file.AnnotationDigest], tsum[:6])})
 	}
 	return ds
+}
+
+// ---------------------------------------------------------- pre-population
+
+// deriveOld makes an earlier version of a directory tree: the same relative
+// paths (some absent), other bytes, other file modes, other link targets,
+// some regular files and symlinks swapped; directories stay directories and
+// keep their modes unless varyDirs.
+func deriveOld(rng *rand.Rand, t *tree, varyDirs bool) *tree {
+	old := &tree{}
+	var gone []string
+	under := func(rel string) bool {
+		for _, g := range gone {
+			if strings.HasPrefix(rel, g+"/") {
+				return true
+			}
+		}
+		return false
+	}
+	// parents come before children in t.Entries only for directories; handle dirs first
+	for _, e := range t.Entries {
+		if e.Type != 'd' || under(e.Rel) {
+			continue
+		}
+		if e.Rel != "" && rng.IntN(10) == 0 {
+			gone = append(gone, e.Rel)
+			continue
+		}
+		ne := entry{Rel: e.Rel, Type: 'd', Mode: e.Mode, nameCls: e.nameCls}
+		if varyDirs && rng.IntN(2) == 0 {
+			ne.Mode = pickMode(rng, dirModes, true, false)
+		}
+		old.Entries = append(old.Entries, ne)
+	}
+	for _, e := range t.Entries {
+		if e.Type == 'd' || under(e.Rel) || rng.IntN(6) == 0 {
+			continue
+		}
+		asFile := e.Type == 'f'
+		if rng.IntN(8) == 0 {
+			asFile = !asFile
+		}
+		ne := entry{Rel: e.Rel, nameCls: e.nameCls}
+		if asFile {
+			ne.Type, ne.Seed, ne.Fill, ne.Size = 'f', rng.Uint64(), rng.IntN(4), pickSize(rng, false)
+			for {
+				ne.Mode = pickMode(rng, fileModes, false, false)
+				if ne.Mode&0o777 != e.Mode&0o777 {
+					break
+				}
+			}
+		} else {
+			ne.Type, ne.Target = 'l', "old-"+asciiName(rng, 1+rng.IntN(8))
+		}
+		old.Entries = append(old.Entries, ne)
+	}
+	return old
+}
+
+// prepopulate puts an earlier version of the item under its name into the
+// second working directory, either directly or by a pipeline of its own
+// through another file store instance on that directory.
+func prepopulate(rng *rand.Rand, root, dstWD string, k int, it *item, o options, umask int, varyDirs bool) error {
+	dstPath := filepath.Join(dstWD, filepath.FromSlash(it.Name))
+	if it.Tree.Single || o.SkipUnpack {
+		// a regular file is expected there: leave an older one, longer or shorter
+		if err := os.MkdirAll(filepath.Dir(dstPath), 0o755); err != nil {
+			return err
+		}
+		e := entry{Type: 'f', Seed: rng.Uint64(), Fill: rng.IntN(4), Size: pickSize(rng, false), Mode: pickMode(rng, fileModes, false, false)}
+		old := &tree{Single: true, Entries: []entry{e}}
+		if err := old.build(dstPath, buildOpts{rng: rng}); err != nil {
+			return err
+		}
+		it.Old, it.PreHow = old, "file"
+		snap, err := snapshot(dstPath)
+		it.oldSnap = snap
+		return err
+	}
+	old := deriveOld(rng, it.Tree, varyDirs)
+	it.Old = old
+	if rng.IntN(3) == 0 {
+		// by an earlier pipeline: another source, another pair of file stores
+		it.PreHow = "pipeline"
+		srcWD := filepath.Join(root, "oldsrc", fmt.Sprint(k))
+		if err := os.MkdirAll(srcWD, 0o755); err != nil {
+			return err
+		}
+		oldSrc := filepath.Join(root, "oldtree", fmt.Sprint(k), "t")
+		if err := os.MkdirAll(filepath.Dir(oldSrc), 0o755); err != nil {
+			return err
+		}
+		syscall.Umask(0o022)
+		err := old.build(oldSrc, buildOpts{rng: rng})
+		syscall.Umask(umask)
+		if err != nil {
+			return err
+		}
+		a, err := file.New(srcWD)
+		if err != nil {
+			return err
+		}
+		defer a.Close()
+		d, err := a.Add(ctx, it.Name, it.MediaType, oldSrc)
+		if err != nil {
+			return fmt.Errorf("earlier pipeline: Add: %w", err)
+		}
+		man, err := oras.PackManifest(ctx, a, oras.PackManifestVersion1_1, "application/vnd.test.c12", oras.PackManifestOptions{Layers: []ocispec.Descriptor{d}})
+		if err != nil {
+			return fmt.Errorf("earlier pipeline: PackManifest: %w", err)
+		}
+		b, err := file.New(dstWD)
+		if err != nil {
+			return err
+		}
+		defer b.Close()
+		o.apply(b, true)
+		if err := oras.CopyGraph(ctx, a, b, man, oras.DefaultCopyGraphOptions); err != nil {
+			return fmt.Errorf("earlier pipeline: CopyGraph: %w", err)
+		}
+	} else {
+		it.PreHow = "direct"
+		if err := os.MkdirAll(filepath.Dir(dstPath), 0o755); err != nil {
+			return err
+		}
+		// what an earlier restore would have left: modes after the umask
+		cp := &tree{Entries: append([]entry{}, old.Entries...)}
+		if !o.PreservePermissions {
+			for i := range cp.Entries {
+				cp.Entries[i].Mode &^= uint32(umask)
+			}
+		}
+		if err := cp.build(dstPath, buildOpts{rng: rng}); err != nil {
+			return err
+		}
+	}
+	snap, err := snapshot(dstPath)
+	it.oldSnap = snap
+	return err
 }
 
 // ------------------------------------------------------------ manifest kinds
